@@ -900,7 +900,14 @@ func (node *Execute) walkSubtree(visit Visit) error {
 func (node *Prepare) Format(buf *TrackedBuffer) {
 	switch buf.dialect.(type) {
 	case *mysql.MySQLDialect:
-		buf.Myprintf("prepare %v from '%v'", node.PreparedStatementName, node.PreparedStatementQuery)
+		if variable, ok := node.PreparedStatementQuery.(TableIdent); ok {
+			// prepare ... from @variable
+			buf.Myprintf("prepare %v from %v", node.PreparedStatementName, variable)
+		} else {
+			// the statement is a string literal: its text is printed escaped
+			query := StringWithDialect(buf.dialect, node.PreparedStatementQuery)
+			buf.Myprintf("prepare %v from %v", node.PreparedStatementName, NewStrVal([]byte(query)))
+		}
 	case *postgresql.PostgreSQLDialect:
 		if len(node.ColumnTypes) > 0 {
 			buf.Myprintf("prepare %v %v as %v", node.PreparedStatementName, node.ColumnTypes, node.PreparedStatementQuery)
